@@ -39,6 +39,10 @@ func gen(t *rapid.T) Case {
 		if rapid.Bool().Draw(t, "nilgeom") {
 			c.Neg = "nil" // the nil Geom: not one of the six types either
 		}
+	case 4:
+		// a collection (not a GeoJSON geometry of this package) that holds a nil member, directly or one level down:
+		// refused like every collection, whatever is inside
+		c.Neg = rapid.SampledFrom([]string{"collection_with_nil", "collection_with_nil_nested"}).Draw(t, "nilmember")
 	}
 	c.G = vkit.GenGJ(t, o)
 	if c.Neg == "" && rapid.IntRange(0, 11).Draw(t, "regular") == 7 {
@@ -141,8 +145,13 @@ func run(c Case) (v vkit.Verdict) {
 		v.NonTrivial = c.Neg == "nonfinite"
 		var b []byte
 		var err error
-		if c.Neg == "nil" {
+		switch c.Neg {
+		case "nil":
 			g = nil
+		case "collection_with_nil":
+			g = geom.GeometryCollection{g, nil}
+		case "collection_with_nil_nested":
+			g = geom.GeometryCollection{g, geom.GeometryCollection{nil}}
 		}
 		if p := vkit.Catch(func() { b, err = geojson.Encode(g) }); p != "" {
 			return v.Fail("Encode(%s) panicked: %s", c.Neg, p)
